@@ -135,6 +135,16 @@ func verifyManifest(inz *zip.Reader, manifest []byte) error {
 		}
 		fh := zipfiles[filename]
 		if fh == nil {
+			if strings.HasSuffix(filename, "/") {
+				// per-package section (sealing, versioning) without an archive
+				// entry: not a file; the signer gives it the digest of nothing
+				if hasDigest(keys) {
+					if err := hashFile(keys, strings.NewReader(""), ""); err != nil {
+						return fmt.Errorf("file \"%s\" in MANIFEST.MF: %w", filename, err)
+					}
+				}
+				continue
+			}
 			return fmt.Errorf("file %s is in manifest but not JAR", filename)
 		}
 		r, err := fh.Open()
@@ -157,6 +167,15 @@ type digester struct {
 }
 
 // Verify any hashes present in a single manifest section against the given content.
+func hasDigest(keys http.Header) bool {
+	for key := range keys {
+		if strings.Contains(key, "-Digest") {
+			return true
+		}
+	}
+	return false
+}
+
 func hashFile(keys http.Header, content io.Reader, suffix string) error {
 	digesters := make([]digester, 0)
 	suffix = "-Digest" + suffix
